@@ -93,7 +93,7 @@ var c19E2EFixed = []c19E2EPat{
 	{`/^Na.*?e/`, "lazy"}, {`/\x{212A}/`, "hex-escape"}, {`/^[k]$/`, "fold-kelvin"}, {`/^[K-K]$/`, "fold-kelvin"}, {`/^k$/`, "fold-kelvin"}, {`/^K$/`, "fold-kelvin"},
 	{`/ſ/`, "fold-long-s"}, {`/^names$/`, "fold-long-s"}, {`/^NAMES$/`, "fold-long-s"}, {`/straße/`, "sharp-s"}, {`/^STRASSE$/`, "sharp-s"}, {`/^stra(ss|ß)e$/`, "sharp-s"},
 	{`/σας/`, "fold-sigma"}, {`/^ΣΑΣ$/`, "fold-sigma"}, {`/^σασ$/`, "fold-sigma"}, {`/^Σ/`, "fold-sigma"}, {`/Σ$/`, "fold-sigma"}, {`/,/`, "comma"}, {`/^[N,]ame$/`, "class-comma"},
-	{`/^$/`, "empty-match"}, {`/$^/`, "never"}, {`//`, "empty-regexp"}, {`/^\w+$/`, "perl-class"}, {`/^\W/`, "perl-class"}, {`/\d/`, "perl-class"}, {`/^\S+$/`, "perl-class"},
+	{`/^Name$|//x/`, "comment-marker-in-regexp"}, {`/^(?:ID|//)$/`, "comment-marker-in-regexp"}, {`/^$/`, "empty-match"}, {`/$^/`, "never"}, {`//`, "empty-regexp"}, {`/^\w+$/`, "perl-class"}, {`/^\W/`, "perl-class"}, {`/\d/`, "perl-class"}, {`/^\S+$/`, "perl-class"},
 	{`/^(?s:.)+$/`, "flag-s"}, {`/(?m)^Name$/`, "flag-m"}, {`/^(?U:N.*)e/`, "flag-U"}, {`/^(?P<n>Na)me$/`, "named-group"}, {`/^((N)(a))me$/`, "groups"},
 	{`/^[\pL&&]+$/`, "class-literal"}, {`/^[\p{Lu}\p{Ll}]+$/`, "class-unicode"}, {`/^[^\P{Lu}]/`, "class-double-negation"}, {`/\AName\z/`, "text-anchors"},
 	// the /regexp/ form itself
